@@ -51,7 +51,7 @@ GInitSt(d) == [acc |-> [i \in {x.id : x \in GLeaves(d)} |-> <<>>], pos |-> <<>>,
                \* the line left what the specification makes a statement about (see Wide)
                out |-> FALSE,
                \* an adjacent subcommand with fallback_to_usage that found nothing to work on printed its usage (its field)
-               usage |-> 0,
+               usage |-> 0, usagep |-> 0,
                \* starts of a block under a word tag that did not work out (see Close)
                litfail |-> 0]
 
@@ -220,7 +220,8 @@ GStep(d, gs00, e) ==
                   /\ IsLeaf(d.named[j]) /\ e.s \in NamesOf(d.named[j])
                   /\ (SingleUse(d.named[j]) => gs00.acc[d.named[j].id] = <<>>)
       r == IF BareFtu(d, gs00) /\ (r0.open.k # gs00.open.k \/ r0.open.p # gs00.open.p) /\ early /\ gs00.dead = "" /\ r0.dead = "block_cut"
-           THEN [r0 EXCEPT !.dead = "", !.usage = IF @ = 0 THEN gs00.open.k ELSE @, !.cut = gs00.cut]
+           THEN [r0 EXCEPT !.dead = "", !.usage = IF @ = 0 THEN gs00.open.k ELSE @,
+                         !.usagep = IF r0.usage = 0 THEN gs00.open.p ELSE @, !.cut = gs00.cut]
            ELSE r0
       joined == /\ gs0.open.k # 0 /\ r.open.k = 0 /\ Len(r.blocks[gs0.open.k]) = Len(gs0.blocks[gs0.open.k]) + 1
                 /\ r.acc = gs0.acc /\ r.pos = gs0.pos /\ r.dead = gs0.dead /\ r.posOnly = gs0.posOnly /\ r.help = gs0.help
@@ -460,9 +461,11 @@ GFinish(d, gs0, envv) ==
       ELSE [class |-> "stderr", why |-> [k |-> "surplus"]]
 
 GOutcome(d, gs, envv) ==
-  LET u == IF gs.usage # 0 THEN gs.usage ELSE IF BareFtu(d, gs) /\ gs.dead = "" THEN gs.open.k ELSE 0 IN
-  \* (an earlier block of the same command that holds an invalid value has failed the run before the bare name is reached)
-  IF u # 0 /\ ~gs.posOnly /\ (\A i \in DOMAIN gs.blocks[u] : BlockVal(d.named[u], gs.blocks[u][i]).ok) THEN [class |-> "stdout", kind |-> "help", path |-> <<d.named[u].head.names[1]>>]
+  LET u == IF gs.usage # 0 THEN gs.usage ELSE IF BareFtu(d, gs) /\ gs.dead = "" THEN gs.open.k ELSE 0
+  \* (an earlier block of the same command that holds an invalid value has failed the run before the bare name is
+  \* reached; a later one is never looked at)
+      up == IF gs.usage # 0 THEN gs.usagep ELSE gs.open.p IN
+  IF u # 0 /\ ~gs.posOnly /\ (\A i \in DOMAIN gs.blocks[u] : gs.blocks[u][i].p < up => BlockVal(d.named[u], gs.blocks[u][i]).ok) THEN [class |-> "stdout", kind |-> "help", path |-> <<d.named[u].head.names[1]>>]
   ELSE IF gs.help THEN [class |-> "stdout", kind |-> "help", path |-> gs.hp] ELSE GFinish(d, gs, envv)
 
 (* ------------------------------------------------------------------ state machine *)
